@@ -162,6 +162,23 @@ def done_rule(ctx: Ctx, rid: str) -> None:
         fl.canon(fl.returns[0].value) in {f"B:not(any(not({e}) for _c0 in {i}))" for e in elts for i in its}
     r.check(ok, "Pipeline.is_empty", f.loc(), "Pipeline.is_empty no longer tests all latches but the last for EmptyInstruction "
             f"(recovered: {[fl.show(x.value) for x in fl.returns]})")
+    # "the pc holds no instruction" is a membership test that answers for *any* pc: no range check, no other call on the way
+    want = {
+        ("RiscvArchitecturalState", "instruction_at_pc"): ("P0.instruction_memory.instruction_at_address(address=P0.program_counter)",
+                                                           ["P0.instruction_memory.instruction_at_address(address=P0.program_counter)"]),
+        ("InstructionMemoryCacheSystem", "instruction_at_address"): ("P0.instruction_memory.instruction_at_address(address=P1)",
+                                                                      ["P0.instruction_memory.instruction_at_address(address=P1)"]),
+        ("InstructionMemory", "instruction_at_address"): ("B:In(P1, P0.instructions)", []),
+    }
+    for (cn, fn), (val, calls) in want.items():
+        f = m.method(cn, fn)
+        fl = normal_flow(m, f)
+        got_calls = sorted(fl.canon(e.expr) for e in fl.effects if e.kind == "call")
+        others = [e for e in fl.effects if e.kind not in ("call",)]
+        vals = [(fl.canon(x.value), fl.canon_cond(x.cond)) for x in fl.returns]
+        ok = vals == [(val, "TRUE")] and got_calls == sorted(calls) and not others and not getattr(fl, "raises", [])
+        r.check(ok, f"{cn}.{fn}", f.loc(), f"{cn}.{fn} must answer `is there an instruction at this address` for every address by the plain "
+                f"membership test (no range check, nothing else that can raise); recovered: returns {vals}, calls {got_calls}")
     f = m.method("ToySimulation", "is_done")
     ok, shown = same_truth_function(m, f, "not self.state.instruction_loaded()")
     r.check(ok, "ToySimulation.is_done", f.loc(), f"TOY is_done is `{shown}`, not `not self.state.instruction_loaded()`")
